@@ -3,7 +3,7 @@ From Coq Require Import String.
 From Boltons Require Import Lib.Prelude Lib.C07_Str Spec.C07_Spec Gen.C07_Gen Model.C07_Model
      Proofs.C07_StrLemmas Proofs.C07_Rds Proofs.C07_Resolve Proofs.C07_Parse Proofs.C07_Navigate
      Proofs.C07_Text Proofs.C07_RfcExamples Gen.C07_Src Proofs.C07_SrcEq Check.C07_Check
-     Proofs.C07_Refine Proofs.C07_RoundTrip.
+     Proofs.C07_Refine Proofs.C07_RoundTrip Proofs.C07_Unrooted.
 Open Scope N_scope.
 Open Scope list_scope.
 
@@ -112,6 +112,21 @@ Proof.
   vm_compute. repeat split; reflexivity.
 Qed.
 
+(* bases whose path_parts lack the leading '' (URL.from_parts(host=..., path_parts=('post', '123')),
+   the usage its documentation shows): rendered like, and navigated exactly like, the rooted URL
+   with the same text - so every theorem about rooted bases transfers *)
+Theorem C07_navigate_unrooted : forall u d, wf_unrooted_base u -> wf_ref d \/ wf_base d ->
+  spec_navigate_strict (to_text u) (to_text d) (to_text (navigate_url u d)) = true /\
+  navigate_url u d = navigate_url (rootpath u) d.
+Proof. exact navigate_unrooted_refines_rfc. Qed.
+Print Assumptions C07_navigate_unrooted.
+Example C07_navigate_unrooted_ex :
+  wf_unrooted_base (unroot ex_base) /\ to_text (unroot ex_base) = to_text ex_base /\
+  u_path (unroot ex_base) = map codes ["b"; "c"; ".."; "d;p"; "."]%string.
+Proof.
+  split; [split; [wf_concrete | vm_compute; repeat eexists]|]. vm_compute. split; reflexivity.
+Qed.
+
 (* the result is again a well-formed base (so theorems chain), has no dot
    segment and is rooted *)
 Theorem C07_navigate_wf : forall b d, wf_base b -> wf_ref d \/ wf_base d -> wf_base (navigate_url b d).
@@ -155,7 +170,7 @@ Print Assumptions C07_normalize_rfc.
    the code it is observed after mutating every container of the results.)      *)
 Theorem C07_model_satisfies_spec : forall b d1 d2 f1 f2,
   wf_base b -> wf_ref d1 \/ wf_base d1 -> wf_ref d2 \/ wf_base d2 ->
-  c07_holds (mkCase (to_text b) (to_text d1) f1 (to_text d2) f2 (record_obs b d1 d2)) = true.
+  c07_holds (mkCase (to_text b) false (to_text d1) f1 (to_text d2) f2 (record_obs b d1 d2)) = true.
 Proof. exact model_observation_satisfies_spec. Qed.
 Print Assumptions C07_model_satisfies_spec.
 
@@ -175,8 +190,8 @@ Print Assumptions C07_round_trip_base.
    satisfies c07_holds *)
 Theorem C07_refinement : forall b d1 d2 f1 f2 o0,
   wf_base_text b -> dest_text_ok d1 -> dest_text_ok d2 ->
-  exists o, c07_model (mkCase (to_text b) (to_text d1) f1 (to_text d2) f2 o0) = Some o /\
-            c07_holds (mkCase (to_text b) (to_text d1) f1 (to_text d2) f2 o) = true.
+  exists o, c07_model (mkCase (to_text b) false (to_text d1) f1 (to_text d2) f2 o0) = Some o /\
+            c07_holds (mkCase (to_text b) false (to_text d1) f1 (to_text d2) f2 o) = true.
 Proof. exact model_on_texts_satisfies_spec. Qed.
 Print Assumptions C07_refinement.
 Example C07_refinement_ex :
